@@ -1,5 +1,6 @@
 import CTV.Gen.CtTypes
 import CTV.Rfc6962.Wire
+import CTV.Rfc6962.Api
 /-!
 # The repository's CT wire types as codec types, and the RFC values as codec values (core only)
 
@@ -134,9 +135,20 @@ def rawLogEntryFromLeaf (leafInput extraData : Bytes) : Except Err RawLogEntry :
 32 bytes, the signature field must be exactly one `DigitallySigned` (no trailing bytes). `ext` is the decoded
 `extensions` string (encoding/base64 is observed by the harness, not modelled here). -/
 
+/-- the Go value of a `tls.DigitallySigned` back as an RFC value -/
+def dsOfVal : Val → Option Rfc.DigitallySigned
+  | .struct [.struct [.num h, .num s], .bytes sig] => some ⟨h, s, sig⟩
+  | _ => none
+
+/-- `tls.Unmarshal(sig, &ds)` with the "trailing data" test, on the regenerated `ct.DigitallySigned` -/
+def parseDS (sig : Bytes) : Option Rfc.DigitallySigned :=
+  match decAll tDigitallySigned sig with
+  | .ok v => dsOfVal v
+  | .error _ => none
+
 def toSCT (version : Nat) (id : Bytes) (timestamp : Nat) (ext : Bytes) (sig : Bytes) : Option Rfc.SCT :=
   if id.length = 32 then
-    match Rfc.complete (Rfc.decDigitallySigned sig) with
+    match parseDS sig with
     | some d => some ⟨version, id, timestamp, ext, d⟩
     | none => none
   else none
@@ -150,9 +162,54 @@ deriving Repr, DecidableEq
 
 def toSTH (treeSize timestamp : Nat) (root : Bytes) (sig : Bytes) : Option STH :=
   if root.length = 32 then
+    match parseDS sig with
+    | some d => some ⟨treeSize, timestamp, root, d⟩
+    | none => none
+  else none
+
+/-- the same two conversions written with the RFC decoder only (what `ctvmodel C04` answers with; `C04.toSCT_eq_rfc` /
+`toSTH_eq_rfc` prove them equal to the models above) -/
+def toSCTRfc (version : Nat) (id : Bytes) (timestamp : Nat) (ext : Bytes) (sig : Bytes) : Option Rfc.SCT :=
+  if id.length = 32 then
+    match Rfc.complete (Rfc.decDigitallySigned sig) with
+    | some d => some ⟨version, id, timestamp, ext, d⟩
+    | none => none
+  else none
+
+def toSTHRfc (treeSize timestamp : Nat) (root : Bytes) (sig : Bytes) : Option STH :=
+  if root.length = 32 then
     match Rfc.complete (Rfc.decDigitallySigned sig) with
     | some d => some ⟨treeSize, timestamp, root, d⟩
     | none => none
   else none
+
+/-! ## trillian/util/log_leaf.go: the extra data CTFE stores for an accepted submission -/
+
+/-- `ExtraDataForChain(cert, chain, isPrecert)`: `tls.Marshal(ct.PrecertChainEntry{cert, chain})` for a precertificate,
+`tls.Marshal(ct.CertificateChain{chain})` otherwise; `BuildLogLeaf` stores exactly this (its `chainHash` is nil). -/
+def extraDataForChain (isPrecert : Bool) (cert : Bytes) (chain : List Bytes) : Except Err Bytes :=
+  if isPrecert then enc tPrecertChainEntry (.struct [asn1CertVal cert, .list (chain.map asn1CertVal)])
+  else enc tCertificateChain (.struct [.list (chain.map asn1CertVal)])
+
+/-! ## the JSON API messages: how encoding/json maps the Go field types of types.go -/
+
+/-- `uint64`/`int64`/`Version` → JSON number; `[]byte` → base64 string (encoding/json); `string` → a string the caller
+treats as base64 (`AddChainResponse.Extensions`, `GetRootsResponse.Certificates`); slices of those → arrays -/
+def jkindOf (goType : String) : Option Rfc.JKind :=
+  if goType = "uint64" ∨ goType = "int64" ∨ goType = "Version" then some .number
+  else if goType = "[]byte" ∨ goType = "string" then some .base64
+  else if goType = "[][]byte" ∨ goType = "[]string" then some .base64List
+  else if goType = "[]LeafEntry" then some .entryList
+  else none
+
+/-- which Go struct carries which RFC 6962 §4 message -/
+def goStructOf : List (String × String) :=
+  [("add-chain-input", "AddChainRequest"), ("add-chain-output", "AddChainResponse"), ("get-sth", "GetSTHResponse"),
+   ("get-sth-consistency", "GetSTHConsistencyResponse"), ("get-proof-by-hash", "GetProofByHashResponse"),
+   ("get-entries", "GetEntriesResponse"), ("get-roots", "GetRootsResponse"), ("get-entry-and-proof", "GetEntryAndProofResponse")]
+
+/-- the regenerated `json:"…"` names and kinds of a Go struct -/
+def jsonShape (goStruct : String) : Option (List (String × Option Rfc.JKind)) :=
+  (Gen.apiJson.lookup goStruct).map fun fs => fs.map fun (_, ty, jn) => (jn, jkindOf ty)
 
 end CtWire
